@@ -591,6 +591,22 @@ def run_c10(tier, seed, replay=None):
         cases.append(mk_case([], ["q", "r", "t"][:len(vs)], prefix + [["cond", ["conj"] + A, ["conj"] + B]], parts=(k + 1, k + 2), mode="bag"))
         cases.append(mk_case([], ["q", "r", "t"][:len(vs)], prefix + A, mode="bag"))
         cases.append(mk_case([], ["q", "r", "t"][:len(vs)], prefix + B, mode="bag"))
+    # CLP(Z) in the branches: a constraint that solves one of its operands at once (two operands bound in the shared prefix)
+    # writes a binding - it must stay in its branch, whichever branch is listed first
+    for _ in range(n // 3):
+        a, b = rnd.randint(-3, 3), rnd.randint(1, 3)
+        rel = rnd.choice(["plusz", "timesz"])
+        w = a + b if rel == "plusz" else a * b
+        solve = rnd.choice([["rel", rel, "x", "y", "w"], ["rel", rel, "x", "w", w + (b if rel == "plusz" else 0)] if rel == "plusz" else ["rel", rel, "x", "y", "w"],
+                            ["rel", rel, "w", "y", (a + b if rel == "plusz" else a * b)] if False else ["rel", rel, "x", "y", "w"]])
+        prefix = [["eq", "x", a], ["eq", "y", b]]
+        A = [solve, ["eq", "q", ["list", 10, "w"]]]
+        B = rnd.choice([[["eq", "q", ["list", 20, "w"]]], [["eq", "w", w + 5], ["eq", "q", 20]], [["neq", "w", w], ["eq", "q", ["list", 30, "w"]]]])
+        first, second = (A, B) if rnd.random() < 0.7 else (B, A)
+        k = len(cases)
+        mk = lambda mid: mk_case([], ["q"], [["fresh", ["x", "y", "w"]] + prefix + mid], mode="bag")
+        c0 = mk([["cond", ["conj"] + first, ["conj"] + second]]); c0["parts"] = (k + 1, k + 2)
+        cases.append(c0); cases.append(mk(first)); cases.append(mk(second))
     # ONE project goal reached by the states of both branches: the projected variable was bound, before the branch point, to a
     # term that holds a variable the branches bind differently
     for _ in range(n // 4):
